@@ -36,6 +36,7 @@ impl LibCase {
                 sched: self.sched.clone(),
                 max_steps: (200 + 40 * (requests + self.tasks as usize)) as u32,
                 generous_bound: 1_000_000,
+                generous_requests: 0,
                 lib_tasks: self.tasks,
                 lib_len: self.length,
                 lib_calls: self.calls,
